@@ -48,22 +48,22 @@ CHECKS = {
             "Grammar-shape enumeration of P1 data blocks (1..3 data sets per line, 1..3 values per set over 5 value kinds, LF/CRLF, blank lines), every presence pattern of A,B,F over all 30 known C.D.E codes and unknown ones x unit letter-case variants, "
             "the complete grid of decimals with 0..3 fraction digits for 25 integer parts x leading zeros, clock values, 270 identification lines; each block through parse, decode_p1_readout_content, decode_p1_readout and both AutoDecoder entry points "
             "against an exact (Fraction) reference."
-            " Also: leading zeros / value lengths 0..130, 255..257, 1000, 4000; relations between data sets of one block (same address twice, same field name from two addresses); source-harvested words as values and ids. The objects of a parse result are edited by the caller and the same block is parsed again.",
+            " Also: leading zeros / value lengths 0..130, 255..257, 1000, 4000; relations between data sets of one block (same address twice, same field name from two addresses); source-harvested words as values and ids. The objects of a parse result are edited by the caller and the same block is parsed again. Address lengths 3..23, every printable character in values and units, each line also as the only line of its block, a failing decode before every evaluation, remembered decoder must be P1.",
             "Trusted: exact reference parser (bound to the data sets of the 5 captured readouts).", "bounded-exhaustive grammar-shape enumeration with an exact-arithmetic reference", "DESIGN.md 4/C11", "E5"),
     "C12": ("model_checking",
             "Explicit-state exploration of the real AutoDecoder to a fixpoint: 8 states (remembered decoder) x a pool of 120+ payloads (28 captured messages, reference-built lists of every supported shape in frame and body form, 5 P1 blocks, junk): every "
-            "(state, event) transition is executed and judged against the seven decoder functions called individually; both entry points with HdlcFrame/DlmsMessage wrappers. Covers histories of any length over the pool."
+            "(state, event) transition is executed and judged against the seven decoder functions called individually; both entry points with HdlcFrame/DlmsMessage/DataReadout wrappers. Covers histories of any length over the pool. Also 966 generated well-formed lists (C07-C09 shape generators) x fresh and 7 remembered decoders, and every payload of 0..2 octets on a fresh decoder."
             " States are digests of the complete AutoDecoder snapshot (a hidden counter enlarges the state space and is explored up to a level cap); exhaustive histories of length 3 on one live object are compared with the transition table; FCS-colliding frame pairs through decode_message; results compared strictly (datetime offsets, number types).",
             "Trusted: the AutoDecoder's future depends only on its snapshotted attributes; accept/reject observed by calling the public decoder functions.", "explicit-state model checking to a fixpoint (all reachable states x all events)", "DESIGN.md 4/C12", "E2"),
     "C13": ("model_checking",
             "Every sequence of up to 3-4 segments over a 10-segment alphabet (valid/header-only/bad-FCS/wrong-length/stuffed frames, valid/bad-CRC/checksum-less readouts, binary and ASCII noise) x 7 candidate reader lists x both protocol classes x "
             "chunkings (one-shot, octet-wise, every single cut, fixed 2..7, pairs of cuts); the queue is compared with the expectation computed from independent reader instances, plus the completeness clause on clean streams."
-            " Also: run lengths 1..40 (thorough 130) of invalid/valid messages around valid ones, 1..3000 data_received() calls of noise before a clean stream, and a valid frame that carries a valid readout.",
+            " Also: run lengths 1..40 (thorough 130) of invalid/valid messages around valid ones, 1..3000 data_received() calls of noise before a clean stream, a valid frame that carries a valid readout, and candidate containers (tuple; one list handed to two protocol instances in a row; the caller's list left alone).",
             "Trusted: the expectation uses fresh real readers (the property is relative to the readers' own output).", "bounded-exhaustive enumeration of segment sequences x chunkings x configurations on the real protocols", "DESIGN.md 4/C13", "E1"),
     "C15": ("model_checking",
             "Every truncation and every 1-octet substitution (16 structural values, b+-1, b^1; thorough: 2-octet structural substitutions) of genuine messages, and every ASCII string up to length 4-7 over {1 . ( ) * x LF}, each given to the real AutoDecoder in "
             "each of its 8 states and through both entry points under a deterministic call-count budget (400 n + 40 000 Python calls; observed maximum about 4 % of it): no exception, dict or None, terminates."
-            " Also: each remembered decoder reached by k genuine messages (k in {1,6}, thorough up to 64), well-formed messages with clocks at year 1 / 9999 in all six date-time positions, source-harvested words alone and inside P1-looking text. Number texts (exponents up to 1E999999999, 400..20000-digit strings, signs, separators, inf/nan) x 9 addresses x 27 unit spellings; a real-time watchdog (45 s per evaluation, shared-memory heart beat) reports evaluations that hang inside one C call.",
+            " Also: each remembered decoder reached by k genuine messages (k in {1,6}, thorough up to 64), well-formed messages with clocks at year 1 / 9999 in all six date-time positions, source-harvested words alone and inside P1-looking text. Number texts (exponents up to 1E999999999, 400..20000-digit strings, signs, separators, inf/nan) x 9 addresses x 27 unit spellings; a real-time watchdog (45 s per evaluation, shared-memory heart beat) reports evaluations that hang inside one C call. P1 syntax-token sequences up to 5-6 tokens.",
             "Trusted: the call-count budget as proxy for time and memory; RLIMIT_AS backstop.", "deviation-bounded exhaustive mutation of messages x all decoder states with a deterministic termination monitor", "DESIGN.md 4/C15", "E3"),
     "C20": ("model_checking",
             "All 16 presence patterns of the optional groups x group values over {0,1,9,10,99,100,255} in both syntaxes (3.3e5 codes), complete 0..255 sweep of every group, format->parse round trip whenever optional groups are absent or non-zero, "
@@ -116,7 +116,7 @@ CHECKS = {
             "Every noise prefix up to the bound over the reduced octet alphabets and the token alphabets, every truncation of every pool message (also followed by 7D, 7E, 7D7E), announced-length headers, 1-edit messages, "
             "long flag-free / LF-free runs, each followed by a clean suffix and run one-shot, noise-octet-wise, with cuts at the boundary -2..+2 and octet-wise; the valid messages returned must contain every suffix "
             "message but possibly the first (stuffing, P1) / every flag-free frame starting more than 2047 + its length after the noise (no stuffing)."
-            " Also: suffix frames from the check-sequence octet sweep, long periodic noise prefixes, and 5-6 KiB readouts in the P1 suffix. Junk containing '/' lines that are not identification lines x every cut (pairs of cuts for short junk).",
+            " Also: suffix frames from the check-sequence octet sweep, long periodic noise prefixes, and 5-6 KiB readouts in the P1 suffix. Junk containing '/' lines that are not identification lines x every cut (pairs of cuts for short junk). Noise + clean suffix also through the feeding variants (re-used receive buffer, other live readers left inside a frame).",
             "Trusted: suffix construction (own opening and closing flag per frame; the shared-flag form is checked and reported under its own kind).",
             "bounded-exhaustive enumeration of noise prefixes x clean suffix on the real readers", "DESIGN.md 4/C16", "E1"),
     "C19": ("model_checking",
@@ -130,7 +130,7 @@ CHECKS = {
             "three-octet messages through the public update()), all 2^16 residues with exact and bit-flipped "
             "trailers, and complete small domains of compute_checksum windows, each compared with a bit-serial "
             "RFC 1662 reference. Exhaustive for the step function, hence (induction on length) for every byte string."
-            " Also: windows on 9000-octet buffers around powers of two and 2047..2049, 70 000-octet incremental runs, and re-use of one bytes/bytearray object with in-place changes between calls. Windows whose running register is 0000/FFFF/F0B8/0001/8000 before the last 1-3 octets.",
+            " Also: windows on 9000-octet buffers around powers of two and 2047..2049, 70 000-octet incremental runs, and re-use of one bytes/bytearray object with in-place changes between calls. Windows whose running register is 0000/FFFF/F0B8/0001/8000 before the last 1-3 octets. Every window again right after each kind of failing call; all interleavings of two compute_checksum calls with one preemption at item-access granularity.",
             "Trusted: the bit-serial reference (mc/ref/fcs.py, anchored to the X-25 check value) and the induction "
             "argument from the complete step-function domain to all strings.",
             "exhaustive state-space enumeration of the FCS register machine (2^24 transitions) on the real code",
